@@ -36,8 +36,8 @@ static char uxf_dir[600], ctl_dir[600];
 
 enum fam { F_INJECT, F_RLIMIT, F_BURST, F_FORK, F_PLAIN };
 static const char *const fam_name[] = { "inject", "rlimit", "burst", "fork-cleanup", "plain" };
-enum flav { FL_PLAIN, FL_DNS, FL_LOCAL_ADDR, FL_TLS_BY_VALUE, FL_BAD_ATTR, FL_REFUSED, FL_ADDR_IN_USE, FL_CTL, FL_ACCEPT_EMPTY, FL_BLOCKING_ACCEPT, FL_CONNECTING, FL_N };
-static const char *const flav_name[] = { "plain", "dns-name", "local-addr", "tls-by-value", "bad-attr", "refused", "addr-in-use", "ctl", "accept-empty", "blocking-accept", "connect-pending" };
+enum flav { FL_PLAIN, FL_DNS, FL_LOCAL_ADDR, FL_TLS_BY_VALUE, FL_BAD_ATTR, FL_REFUSED, FL_ADDR_IN_USE, FL_CTL, FL_ACCEPT_EMPTY, FL_BLOCKING_ACCEPT, FL_CONNECTING, FL_CTL_LONG, FL_N };
+static const char *const flav_name[] = { "plain", "dns-name", "local-addr", "tls-by-value", "bad-attr", "refused", "addr-in-use", "ctl", "accept-empty", "blocking-accept", "connect-pending", "ctl-long-dir" };
 
 struct scn { enum vtp tp; enum flav fl; };
 struct site { int scn; int call; int idx; int err; };
@@ -448,7 +448,14 @@ static void one_case(long idx, void *arg)
     /* per-case directories: files left by an earlier case that died must not be charged to this one */
     snprintf(uxf_dir, sizeof uxf_dir, "%s/uxf8-%d", va.dir, (int)getpid()); mkdir(uxf_dir, 0700);
     snprintf(ctl_dir, sizeof ctl_dir, "%s/ctl8-%d", va.dir, (int)getpid()); mkdir(ctl_dir, 0700);
-    if (sc->fl == FL_CTL || sc->fl == FL_BLOCKING_ACCEPT) { setenv("XCM_CTL", ctl_dir, 1); vs_ledger_reset(); }
+    if (sc->fl == FL_CTL_LONG) {
+        /* the operator's control directory has a long name: the control socket's path (dir + "/ctl-<pid>-<id>") approaches, reaches or
+         * exceeds what a UNIX socket address holds (108 bytes).  Sockets must work (with or without a control socket), nothing may abort */
+        size_t want = 84 + vrnd_n(&r, 24); size_t have = strlen(ctl_dir);         /* 84 .. 107 characters */
+        if (have + 2 < want) { size_t k = have; ctl_dir[k++] = '-'; while (k < want) ctl_dir[k++] = 'c'; ctl_dir[k] = 0; mkdir(ctl_dir, 0700); }
+        vobs_max("max_ctl_dir_length", (long)strlen(ctl_dir));
+    }
+    if (sc->fl == FL_CTL || sc->fl == FL_BLOCKING_ACCEPT || sc->fl == FL_CTL_LONG) { setenv("XCM_CTL", ctl_dir, 1); vs_ledger_reset(); }
     vs_set_watch(false, true);
     vs_plan_init(&plan, ss); plan.quiet = true;
     struct fdtab base; fdtab_take(&base);
